@@ -66,7 +66,7 @@ def allowed_new(desc):
     for opt in ("--json", "-js", "--junit", "-j", "-oc", "--output_configuration", "--quality_report"):
         if opt in a:
             ok.add(os.path.normpath(a[a.index(opt) + 1]))
-    if "--backup" in a or "-b" in a:
+    if ("--backup" in a or "-b" in a) and "--fix" in a:
         for f in desc["sandbox"]:
             if f["path"].endswith(".vhd"):
                 ok.add(f["path"] + ".bak")
@@ -174,6 +174,10 @@ def gen_a(seed):
         d["argv"] = ["--fix_only", "fixonly.json"] + d["argv"]
     if rng.random() < 0.08:
         d["argv"] = ["--force_fix"] + d["argv"]
+    if rng.random() < 0.12:
+        # asking for a backup without --fix is refused today; whatever a tree does with it, a run
+        # without --fix creates nothing next to its inputs
+        d["argv"] = ["--backup"] + d["argv"]
     return d
 
 
@@ -401,6 +405,70 @@ def gen_c(seed, env):
     return _desc(seed, rng, sandbox, argv, {"class": "c", "files": meta, "style": style})
 
 
+def reporters(env, name, data, opts):
+    """Rules that report on this file under these options (solo `-ap --json` run of the same tree)."""
+    key = ("c04rep", wire.digest(data), tuple(opts))
+    if key not in env.cache:
+        d = _desc(0, substream(0, "x"), [workload.sb_entry(name, data)], ["-p", "1", "-ap", "--json", "out/learn.json"] + opts + ["-f", name], {})
+        r = env.run(d, keep_files=("out/learn.json",))
+        ids = None
+        if r["status"] == "exit":
+            try:
+                ids = set()
+                for fe in json.loads(r["kept"]["out/learn.json"].decode())["files"]:
+                    for v in fe["violations"]:
+                        ids.add(v["rule"])
+            except Exception:
+                ids = None
+        env.cache[key] = None if ids is None else sorted(ids)
+    return env.cache[key]
+
+
+def gen_e(seed, env):
+    """Class (c) by configuration: corpus files as they are (violations and all) under a
+    configuration that disables exactly the rules that report on them - `vsg -ap -c cfg` is silent,
+    so nothing is fixable and --fix must leave the files alone.  Whatever a fix does for a rule
+    the user switched off shows up here."""
+    rng = substream(seed, "c04e")
+    style = rng.choice(workload.STYLES)
+    opts = ["--style", style] if style else []
+    sandbox, names, meta, off = [], [], [], set()
+    for i in range(rng.randint(1, 3)):
+        label, data = workload.pick_bytes(rng, rng.choice(["small"] * 6 + ["mid"] * 3))
+        if rng.random() < 0.4:
+            data = workload.plant_violations(rng, data, 0.15)
+            label += "+planted"
+        name = "src/e%d.vhd" % i
+        rep = reporters(env, name, data, opts)
+        if rep is None:
+            continue
+        off.update(rep)
+        sandbox.append(workload.sb_entry(name, data, rng.choice(workload.MODES)))
+        names.append(name)
+        meta.append({"path": name, "from": "as-is(" + label + ")", "tags": ["reporters-disabled"], "size": len(data), "digest": wire.digest(data)})
+    if not names or not off:
+        return None
+    cfg = {"rule": {u: {"disable": True} for u in sorted(off)}}
+    if rng.random() < 0.2:
+        cfg["linesep"] = "\n"
+    sandbox.append(workload.sb_entry("cfg.json", common.json_bytes(cfg)))
+    argv = ["-p", str(rng.choice([1, 1, 2])), "--fix"]
+    if rng.random() < 0.3:
+        argv.append("--backup")
+    argv += opts
+    if rng.random() < 0.15:
+        argv += ["-fp", str(rng.randint(3, 7))]
+    argv += ["-c", "cfg.json", "-f"] + names
+    return _desc(seed, rng, sandbox, argv, {"class": "c", "by_config": True, "disabled": len(off), "files": meta, "style": style})
+
+
+def only_disables(cfg):
+    """A configuration that does nothing but switch rules off (and, optionally, name linesep / skip_phase)."""
+    if not set(cfg) <= {"linesep", "skip_phase", "rule"}:
+        return False
+    return all(v == {"disable": True} for v in (cfg.get("rule") or {}).values())
+
+
 def gen_d(seed, env):
     """Mixed --fix batch: files that are clean (protected: must stay untouched) next to files with
     fixable violations (which get fixed in the same run, by the same workers)."""
@@ -484,7 +552,7 @@ def member(desc, env):
                     return None
                 if "--style" not in a and any(cfg == c for c in NOFIX_CFGS.values()):
                     return "b"
-                if set(cfg) <= {"linesep", "skip_phase"} and (desc.get("meta") or {}).get("class") == "c" and is_clean(desc, env):
+                if only_disables(cfg) and (desc.get("meta") or {}).get("class") == "c" and is_clean(desc, env):
                     return "c"
         return None
     if (desc.get("meta") or {}).get("class") == "c" and is_clean(desc, env):
@@ -508,11 +576,11 @@ def judge(desc, env):
 
 def plan(tier, seed):
     if tier == "quick":
-        na, nb, nc, nd, nr = 250, 90, 70, 40, 60
+        na, nb, nc, nd, nr, ne = 250, 90, 70, 40, 60, 70
     else:
-        na, nb, nc, nd, nr = 6000, 2500, 1500, 1000, 2500
+        na, nb, nc, nd, nr, ne = 6000, 2500, 1500, 1000, 2500, 2500
     jobs = []
-    for m, n in (("a", na), ("b", nb), ("c", nc), ("d", nd), ("r", nr)):
+    for m, n in (("a", na), ("b", nb), ("c", nc), ("d", nd), ("r", nr), ("e", ne)):
         for i in range(n):
             jobs.append({"prop": PROP, "mode": m, "i": i, "seed": H(seed, tier, PROP, m, i)})
     jobs += common.regress_jobs(PROP, 4)
@@ -536,7 +604,7 @@ def run_job(job, env):
     elif mode == "r":
         d = gen_r(seed)
     else:
-        d = gen_d(seed, env) if mode == "d" else gen_c(seed, env)
+        d = gen_d(seed, env) if mode == "d" else gen_e(seed, env) if mode == "e" else gen_c(seed, env)
         if d is None:
             out.skipped("no-clean-file-obtained")
             return out.done()
